@@ -29,15 +29,21 @@ type c13Expect struct {
 	busyBefore, busyAt int
 	desc               string
 	ignoreCtx          bool
+	// follow-up caller (arrives after the first one has returned, the capacity is still held)
+	follow              bool
+	ta2, bound2, ret2   int64
+	returned2, granted2 bool
 }
 
 const ms = int64(time.Millisecond)
 
-func c13Scenario(kind string) *mc.Scenario {
+// cofire: wake-ups due at the same instant (arrival, cancellation, release, poll timeout) are concurrent —
+// the woken threads interleave — instead of each running to quiescence before the next fires.
+func c13Scenario(kind string, cofire bool) *mc.Scenario {
 	return &mc.Scenario{
-		Name:   "C13/grid/" + kind,
+		Name:   "C13/grid/" + kind + map[bool]string{true: "", false: "/serial-instants"}[cofire],
 		Params: "arrival in {0,5} ms (deadline limiter: also D and D+1), bound D in {10,20} ms, context bound (explicit cancel or context deadline) in {none,pre,5,D-1,D,D+1}, release in {none,D-1,D,D+1}; limit 1 held",
-		Cfg:    vrt.Config{MaxSteps: 4000, Horizon: 200 * ms},
+		Cfg:    vrt.Config{MaxSteps: 4000, Horizon: 200 * ms, CoFire: cofire},
 		Body: func(x *mc.Exec) {
 			e := &c13Expect{kind: kind}
 			x.Aux = e
@@ -130,6 +136,37 @@ func c13Scenario(kind string) *mc.Scenario {
 			vrt.Join(ths...)
 			vrt.Join(caller)
 			x.MarkConflict()
+			if held != nil && e.tr < 0 {
+				// a second caller arrives once the first has returned and the capacity is still held: whatever
+				// the first call left behind, this one is bound by its own context deadline (3 ms from now)
+				// or the limiter's bound, whichever comes first
+				now := vrt.Now()
+				e.ta2 = now
+				b := now + 3*ms
+				switch {
+				case fam == "deadline" && e.d*ms < b:
+					b = e.d * ms
+					if b < now {
+						b = now
+					}
+				case kind == "queue-fifo":
+					b = now + e.d*ms // cancellation does not bound this limiter
+				}
+				e.bound2 = b
+				e.follow = true
+				ctx2, cancel2 := vctx.WithDeadline(waiterCtx(1), vtime.VirtualOf(now+3*ms))
+				f := vrt.GoL("follow-up", func() {
+					l, ok := st.top.Acquire(ctx2)
+					e.ret2 = vrt.Now()
+					e.granted2 = ok
+					e.returned2 = true
+					if ok && l != nil {
+						l.OnSuccess()
+					}
+				})
+				vrt.Join(f)
+				cancel2()
+			}
 		},
 		Post: func(x *mc.Exec, r *vrt.Result) {
 			e, _ := x.Aux.(*c13Expect)
@@ -142,6 +179,19 @@ func c13Scenario(kind string) *mc.Scenario {
 }
 
 func c13Check(x *mc.Exec, e *c13Expect, r *vrt.Result) {
+	if e.follow {
+		fam := map[string]string{"blocking0": "blocking", "blocking7": "blocking", "deadline": "deadline", "queue-fifo": "queue", "queue-lifo-evict": "queue"}[e.kind]
+		x.Observe("follow-up at %d -> returned=%v granted=%v at=%d bound=%d", e.ta2, e.returned2, e.granted2, e.ret2, e.bound2)
+		switch {
+		case !e.returned2 || e.ret2 > e.bound2:
+			x.Fail(fam+"/follow-up-blocks-past-bound", "%s: a second caller arriving at %d (capacity still held) was still blocked after its bound %d (returned=%v at %d); parked: %v",
+				e.desc, e.ta2, e.bound2, e.returned2, e.ret2, r.StuckInfo)
+		case e.granted2:
+			x.Fail(fam+"/follow-up-granted-without-capacity", "%s: a second caller arriving at %d was granted at %d although the only token is still held", e.desc, e.ta2, e.ret2)
+		case e.ret2 < e.bound2:
+			x.Fail(fam+"/follow-up-refused-early", "%s: a second caller arriving at %d was refused at %d, before its bound %d, while no capacity was offered", e.desc, e.ta2, e.ret2, e.bound2)
+		}
+	}
 	fam := map[string]string{"blocking0": "blocking", "blocking7": "blocking", "deadline": "deadline", "queue-fifo": "queue", "queue-lifo-evict": "queue"}[e.kind]
 	if e.ignoreCtx {
 		e.tc = -1
@@ -163,7 +213,8 @@ func c13Check(x *mc.Exec, e *c13Expect, r *vrt.Result) {
 			x.Fail(fam+"/immediate-refusal-granted", "%s: %s was granted", e.desc, why)
 		case e.retClock != ta:
 			x.Fail(fam+"/immediate-refusal-late", "%s: %s was refused at %d, arrival was %d", e.desc, why, e.retClock, ta)
-		case e.busyAt != e.busyBefore:
+		case e.busyAt != e.busyBefore && e.tr != e.ta:
+			// (a release falling on the very instant of the call changes the count concurrently: not judged)
 			x.Fail(fam+"/immediate-refusal-consumed", "%s: busy changed %d -> %d", e.desc, e.busyBefore, e.busyAt)
 		}
 		return
@@ -240,9 +291,13 @@ func c13Check(x *mc.Exec, e *c13Expect, r *vrt.Result) {
 
 func runC13(c *Ctx) {
 	opt := mc.Options{PreemptBound: c.Pick(2, 3)}
-	for _, kind := range []string{"deadline", "blocking0", "blocking7", "queue-fifo", "queue-lifo-evict"} {
-		c.Explore(c13Scenario(kind), opt)
+	for _, kind := range []string{"deadline", "blocking0", "queue-fifo", "queue-lifo-evict"} {
+		c.Explore(c13Scenario(kind, true), opt)
 	}
+	// the 7 ms poll timeout re-arms on instants of the grid: with concurrent instants the space is only
+	// finished at preemption bound 1 (sharded); at the full bound each wake-up runs to quiescence
+	c.ExploreBig(c13Scenario("blocking7", true), mc.Options{PreemptBound: 1})
+	c.Explore(c13Scenario("blocking7", false), opt)
 	// queue driver: timeouts and cancellations in arbitrary event sequences
 	opt0 := mc.Options{PreemptBound: 0}
 	for _, ct := range qCtors()[:3] {
